@@ -240,7 +240,8 @@ Definition instr_module (body : list tstmt) : list tstmt :=
 End Instr.
 
 (* ---------------------------------------------------------------- values, results, logs *)
-Inductive val : Set := VInt (z : Z) | VBool (b : bool) | VNone | VStr (s : N) | VFun (n : N).     (* VFun n: the function defined by the `def` node n (model/FragFun.v) *)
+Inductive val : Set := VInt (z : Z) | VBool (b : bool) | VNone | VStr (s : N) | VFun (n : N) | VBuiltin (k : N) | VRange (a b : Z).
+(* VFun n: the function defined by the `def` node n (model/FragFun.v); VBuiltin 0: the builtin `range`; VRange a b: range(a, b) (model/FragProg.v) *)
 Inductive exc : Set := ENameError | ETypeError | EZeroDiv.
 Inductive res (A : Set) : Set := Ok (a : A) | Err (e : exc).
 Arguments Ok {A} a.
@@ -540,7 +541,8 @@ Definition binop (op : N) (a b : val) : res val :=
 Definition val_eq (a b : val) : bool :=
   match as_int a, as_int b with
   | Some x, Some y => Z.eqb x y
-  | _, _ => match a, b with VNone, VNone => true | VStr s, VStr t => N.eqb s t | VFun n, VFun m => N.eqb n m | _, _ => false end
+  | _, _ => match a, b with VNone, VNone => true | VStr s, VStr t => N.eqb s t | VFun n, VFun m => N.eqb n m | VBuiltin n, VBuiltin m => N.eqb n m
+                     | VRange a b, VRange c d => (Z.leb b a && Z.leb d c) || (Z.eqb a c && Z.eqb b d) | _, _ => false end
   end.
 Definition cmpop (op : N) (a b : val) : res bool :=
   if N.eqb op kEq then Ok (val_eq a b)
@@ -552,7 +554,7 @@ Definition cmpop (op : N) (a b : val) : res bool :=
            else Err ETypeError
        | _, _ => Err ETypeError
        end.
-Definition truth (v : val) : bool := match v with VInt z => negb (Z.eqb z 0) | VBool b => b | VNone => false | VStr _ => true | VFun _ => true end.
+Definition truth (v : val) : bool := match v with VInt z => negb (Z.eqb z 0) | VBool b => b | VNone => false | VStr _ => true | VFun _ => true | VBuiltin _ => true | VRange a b => Z.ltb a b end.
 Definition unop (op : N) (a : val) : res val :=
   if N.eqb op kNot then Ok (VBool (negb (truth a)))
   else match as_int a with
